@@ -15,6 +15,7 @@ Proof.
     + right. exists C. unfold exec1, step. destruct (cstep (d w)) as [[l d'] [b|]]; cbn; auto.
     + destruct (cancelled w), (waiter w); cbn; auto.
     + destruct (sig && negb (mu w)); cbn; auto.
+    + right. exists C. unfold exec1, step. destruct (cstep (d w)) as [[l d'] [b|]]; cbn; auto. destruct (waiter w); cbn; auto.
   - unfold cancel_step. destruct (cg w); cbn; auto.
     + destruct (cancelled w); cbn; auto.
     + destruct (mu w); cbn; auto.
@@ -45,12 +46,12 @@ Qed.
 (* mutex / cancellation invariant                                       *)
 (* ------------------------------------------------------------------ *)
 Definition holds_c (c : cpc) : bool :=
-  match c with CTry | CIsDone | CWait | CUnlockD _ | CUnlockNil => true | _ => false end.
+  match c with CTry | CIsDone | CWait | CUnlockD _ | CUnlockNil | CTryLast => true | _ => false end.
 Definition holds_g (g : gpc) : bool := match g with GBcast | GUnlock => true | _ => false end.
 Definition after_bcast (g : gpc) : bool := match g with GUnlock | GDone => true | _ => false end.
 Definition unsignalled (c : cpc) : bool := match c with CWait | CParked false => true | _ => false end.
 Definition poller_pc (c : cpc) : bool :=
-  match c with CTry | CIsDone | CSleep | CWrite _ | CDone => true | _ => false end.
+  match c with CTry | CIsDone | CSleep | CWrite _ | CDone | CTryLast => true | _ => false end.
 
 Definition is_gawait (g : gpc) : bool := match g with GAwait => true | _ => false end.
 Definition is_gdone (g : gpc) : bool := match g with GDone => true | _ => false end.
@@ -92,7 +93,7 @@ Proof.
   unfold wexec1, wstep, cons_step, cancel_step, closer_step, prod_step, wake, set_cons, set_d, set_mu_cons, set_mu_cg.
   cbn [d waiter gated mu cons cg closer cancelled pb wreturned wdelivered g_lost].
   intros H.
-  destruct t as [| | |p]; destruct c as [| | | |[|]| |b| |b|], g, k, m, ca, wt; cbn in H; try discriminate H; clear H; cbn; wcrush.
+  destruct t as [| | |p]; destruct c as [| | | |[|]| |b| |b| |], g, k, m, ca, wt; cbn in H; try discriminate H; clear H; cbn; wcrush.
 Qed.
 
 Lemma wexec_inv w sched : WInv w -> WInv (wexec w sched).
